@@ -33,8 +33,18 @@ US = EventTime.Unit.US
 LG = implutil.quiet_logger()
 
 
+MIXED_UNITS = [False]
+
+
 def ET(x):
-    return EventTime(int(x), US)
+    """x microseconds as an EventTime; in worlds flagged `units` a positive multiple of 1000 is expressed in ms (of 10^6
+    in s), so that strategies, deadlines and placements of one world carry different units"""
+    x = int(x)
+    if MIXED_UNITS[0] and x > 0 and x % 10 ** 6 == 0:
+        return EventTime(x // 10 ** 6, EventTime.Unit.S)
+    if MIXED_UNITS[0] and x > 0 and x % 1000 == 0:
+        return EventTime(x // 1000, EventTime.Unit.MS)
+    return EventTime(x, US)
 
 
 class Unsupported(Exception):
@@ -47,6 +57,7 @@ class Unsupported(Exception):
 def build_world(d):
     """d: see harness/props/c10_tetri.py:gen_world.  Returns (workload, worker_pools, info)."""
     res_names = d["resources"]
+    MIXED_UNITS[0] = bool(d.get("units"))
     pools = []
     widx = {}
     workers = []
